@@ -15,6 +15,7 @@ conditions that are visible in the code:
                     (what (c) relies on).
   EVERY-ARM-COMPLETES every expression kind's arm of eval_expr marks its entry done, schedules it again with a later state, or
                     always fails; otherwise the stop test can never fire for that kind.
+  MARK-REACHES-ALL  the mutable visitor that places the value-used mark descends into every expression-bearing variant of Expression_.
   INNERMOST         the id is chosen by walking the ids found at the offset innermost-first (reversed iteration) and taking
                     the first that names an expression.
   STOP-ID-SCOPED    every path of eval_up_to that stored Some(id) in Env.stop_at_expr_id stores None again before it
@@ -126,6 +127,66 @@ def every_arm_completes(P, res, rule="EVERY-ARM-COMPLETES"):
                 res.bad(rule, key, "the %s arm of eval_expr never marks its entry done and never schedules it again: eval-up-to on a `%s` expression never stops "
                         "at it and reports the value of whatever runs last instead" % (nm, nm), ev.loc(ev.blocks[tgt]["term"].get("span") if ev.blocks[tgt]["stmts"] == [] else ev.blocks[tgt]["stmts"][0].get("span")))
     res.floor(rule, "arms of eval_expr's match on Expression_", n, 25)
+    # the helpers those arms delegate to: a fallible stepper (returns Result<(), (RestoreValues, EvalError)>) that schedules its
+    # expression again on some path must do so on every path that ends in Ok -- otherwise that path leaves the expression
+    # neither pending nor done (a `while` whose condition has become false, a `for` over an exhausted list)
+    nh = 0
+    for p_, g in sorted(P.funcs.items()):
+        if not p_.startswith("eval::") or "{closure" in p_ or p_ == ev.path or "RestoreValues" not in g.locals[0]["ty"] or not g.locals[0]["ty"].replace(" ", "").startswith("std::result::Result<(),"):
+            continue
+        evs = {bi: (1, 1) for bi, t in g.calls() if _c06.pushed_state(g, t) not in (None, "NotEvaluated")}
+        if not evs:
+            continue
+        nh += 1
+        rng = D.event_ranges(g, evs)
+        oks = [b for b in g.reachable_blocks() for st in g.blocks[b]["stmts"] if st.get("s") == "assign" and st["place"]["l"] == 0 and not st["place"]["p"]
+               and st["rv"]["k"] == "agg" and st["rv"].get("variant") == "Ok"]
+        short = [b for b in oks if rng.get(b, (0, 0))[0] < 1]
+        if short:
+            res.bad(rule, "%s # ok-path-without-reschedule" % p_, "%s can return Ok without scheduling its expression again (as pending or as done): on that path the "
+                    "expression is never seen in a `done` state and eval-up-to runs past it" % p_, g.loc(g.blocks[short[0]]["stmts"][0].get("span")))
+        else:
+            res.ok(rule, "%s: every Ok path schedules the expression again (%d Ok exits)" % (p_, len(oks)))
+    res.floor(rule, "fallible stepper helpers", nh, 2)
+
+
+CHILD_TYPES = ("parser::ast::Expression", "parser::ast::Block", "parser::ast::FunInfo", "parser::ast::ParenthesizedArguments",
+               "parser::ast::ParenthesizedExpression", "parser::ast::DictKeyValue", "parser::ast::ExpressionWithComma")
+
+
+def mark_reaches_all(P, res, rule="MARK-REACHES-ALL"):
+    """the value-used mark is put on the observed expression by a MutVisitor walk; the default `visit_expr_` must descend into
+    every variant of Expression_ that can contain an expression (closure bodies included), or an observed expression
+    inside such a variant keeps `value_is_used == false`, pushes nothing, and a stale value is reported."""
+    adt = P.adts.get("parser::ast::Expression_")
+    if adt is None:
+        raise M.MissingAnchor("enum parser::ast::Expression_")
+    nonleaf = {v["name"] for v in adt["variants"] if any(any(c in str(fl.get("ty", "")) for c in CHILD_TYPES) for fl in v.get("fields", []))}
+    g = P.require_fn("parser::visitor::MutVisitor::visit_expr_")
+    top = None
+    for sw in D.enum_switches(g):
+        if sw["ety"].endswith("Expression_") and (top is None or g.rpo.index(sw["bb"]) < g.rpo.index(top["bb"])):
+            top = sw
+    if top is None:
+        raise M.MissingAnchor("MutVisitor::visit_expr_: the match on Expression_")
+    allt = dict(top["by_target"])
+    if top["otherwise_variants"]:
+        allt[top["otherwise"]] = top["otherwise_variants"]
+    n = 0
+    for tgt, names in allt.items():
+        reg = D.reach_from(g, [tgt])      # arms meet again only at the function's end (or-patterns share a body)
+        visits = [b for b in reg if g.blocks[b]["term"]["t"] == "call" and "Visitor::visit_" in (M.callee_name(g.blocks[b]["term"]) or "")]
+        for nm in names:
+            if nm not in nonleaf:
+                continue
+            n += 1
+            if visits:
+                res.ok(rule, "MutVisitor::visit_expr_ descends into Expression_::%s" % nm)
+            else:
+                res.bad(rule, "parser::visitor::MutVisitor::visit_expr_ # Expression_::%s # not-visited" % nm,
+                        "the mutable visitor treats Expression_::%s as a leaf although it contains expressions: eval-up-to cannot mark an observed expression "
+                        "inside it as used, so it pushes no value and the previous value on the stack is reported" % nm, g.loc())
+    res.floor(rule, "expression-bearing variants of Expression_", n, 18)
 
 
 def run(ctx, res):
@@ -134,6 +195,7 @@ def run(ctx, res):
     f = L.f
     done_means_value(P, res)
     every_arm_completes(P, res)
+    mark_reaches_all(P, res)
     # ---- STOP-AFTER-VALUE
     id_sw = None
     for sw in D.bool_switches(f):
